@@ -453,7 +453,9 @@ class Tensor(object):
                 other = Tensor(
                     [
                         torch.ones(
-                            [self.shape[0], 1, self.shape[n + 1], 1], device=device
+                            [self.shape[0], 1, self.shape[n + 1], 1],
+                            dtype=self.cores[0].dtype,
+                            device=device,
                         )
                         for n in range(self.dim())
                     ],
@@ -462,7 +464,11 @@ class Tensor(object):
             else:
                 other = Tensor(
                     [
-                        torch.ones([1, self.shape[n], 1], device=device)
+                        torch.ones(
+                            [1, self.shape[n], 1],
+                            dtype=self.cores[0].dtype,
+                            device=device,
+                        )
                         for n in range(self.dim())
                     ]
                 )
@@ -522,6 +528,7 @@ class Tensor(object):
                                 core2.shape[1],
                                 core1.shape[2],
                                 core1.shape[3],
+                                dtype=core1.dtype,
                                 device=device,
                             ),
                         ],
@@ -535,6 +542,7 @@ class Tensor(object):
                                 core1.shape[1] + core2.shape[1],
                                 core1.shape[2],
                                 core2.shape[3],
+                                dtype=core1.dtype,
                                 device=device,
                             ),
                         ],
@@ -547,6 +555,7 @@ class Tensor(object):
                                 core1.shape[1],
                                 core2.shape[2],
                                 core2.shape[3],
+                                dtype=core1.dtype,
                                 device=device,
                             ),
                             core2,
@@ -560,6 +569,7 @@ class Tensor(object):
                                 core1.shape[1] + core2.shape[1],
                                 core2.shape[2],
                                 core1.shape[3],
+                                dtype=core1.dtype,
                                 device=device,
                             ),
                             slice2,
@@ -574,6 +584,7 @@ class Tensor(object):
                             core1,
                             torch.zeros(
                                 [core2.shape[0], core1.shape[1], core1.shape[2]],
+                                dtype=core1.dtype,
                                 device=device,
                             ),
                         ],
@@ -586,6 +597,7 @@ class Tensor(object):
                                 core1.shape[0] + core2.shape[0],
                                 core1.shape[1],
                                 core2.shape[2],
+                                dtype=core1.dtype,
                                 device=device,
                             ),
                         ],
@@ -595,6 +607,7 @@ class Tensor(object):
                         [
                             torch.zeros(
                                 [core1.shape[0], core2.shape[1], core2.shape[2]],
+                                dtype=core1.dtype,
                                 device=device,
                             ),
                             core2,
@@ -607,6 +620,7 @@ class Tensor(object):
                                 core1.shape[0] + core2.shape[0],
                                 core2.shape[1],
                                 core1.shape[2],
+                                dtype=core1.dtype,
                                 device=device,
                             ),
                             slice2,
@@ -1762,7 +1776,7 @@ class Tensor(object):
             shape2 = (factor.shape[1] + 1, factor.shape[1], factor.shape[0])
             order = (0, 2, 1)
 
-        core = torch.zeros(shape1)
+        core = torch.zeros(shape1, dtype=factor.dtype, device=factor.device)
         core[..., 0, :] = factor.transpose(-1, -2)
         return core.reshape(shape2).permute(order)[..., :-1, :, :]
 
@@ -2270,7 +2284,14 @@ class Tensor(object):
             len(rep) > self.dim()
         ):  # If requested, we add trailing new dimensions. We use CP as is cheaper
             for n in range(self.dim(), len(rep)):
-                t.cores.append(torch.ones(rep[n], self.cores[-1].shape[-1]))
+                t.cores.append(
+                    torch.ones(
+                        rep[n],
+                        self.cores[-1].shape[-1],
+                        dtype=self.cores[-1].dtype,
+                        device=self.cores[-1].device,
+                    )
+                )
                 t.Us.append(None)
         for n in range(self.dim()):
             if t.Us[n] is not None:
